@@ -239,7 +239,7 @@ fn check_multi(inp: &Input, n: usize, rng: &mut Rng, rep: &mut Report) {
         if let Some(kind) = kind {
             // minimise the set of re-laid boundaries (greedy, deterministic); only for the first few violations of a run
             let mut cur: Vec<Option<&str>> = seps.clone();
-            let budget_ok = MINIMISED.fetch_add(1, std::sync::atomic::Ordering::Relaxed) < 24;
+            let budget_ok = MINIMISED.fetch_add(1, std::sync::atomic::Ordering::Relaxed) < 8 && inp.toks.len() <= 1500;
             let violates = |sp: &[Option<&str>]| -> bool {
                 let t = join_multi(&inp.toks, sp);
                 let (st, d) = digest(&comp::rasn(&[t], &cfg));
@@ -342,14 +342,14 @@ pub fn run(ctx: &Ctx) -> Report {
         return rep;
     }
     let corpus = load_corpus();
-    let n_g = ctx.pick(260u64, 4000);
-    let n_c = ctx.pick(120usize, 892);
+    let n_g = ctx.pick(90u64, 3000);
+    let n_c = ctx.pick(50usize, 892);
     let quick_forms: Vec<usize> = vec![0, 2, 4, 5, 7, 8, 11, 12];
     let all_forms: Vec<usize> = (0..FORMS.len()).collect();
     let forms = if ctx.quick() { quick_forms } else { all_forms };
-    let max_b = ctx.pick(150usize, 300);
-    let max_b_corpus = ctx.pick(40usize, 120);
-    let n_multi = ctx.pick(40usize, 200);
+    let max_b = ctx.pick(90usize, 300);
+    let max_b_corpus = ctx.pick(24usize, 120);
+    let n_multi = ctx.pick(12usize, 120);
     let seed = ctx.seed;
     let acc = Acc::new(rep);
     par_for(n_g, |i| {
@@ -379,7 +379,9 @@ pub fn run(ctx: &Ctx) -> Report {
             if so == sr && d_o == d_r && inp.toks.len() >= 2 {
                 local.count("corpus_files_used", 1);
                 check_input(&inp, &forms, max_b_corpus, &mut rng, &mut local);
-                check_multi(&inp, n_multi, &mut rng, &mut local);
+                if corpus.files[pick[k as usize]].1.len() <= 10_000 {
+                    check_multi(&inp, n_multi / 2, &mut rng, &mut local);
+                }
             } else {
                 local.count("corpus_files_skipped(rejoin differs: comments carry docs or tokenizer suspect)", 1);
             }
